@@ -196,7 +196,8 @@ func driveC07(o opts) error {
 					}
 					if g.Chance(0.7) {
 						r.HasSelect = true
-						r.Initial, r.Insert, r.Delete, r.Modify = g.Chance(0.8), g.Chance(0.8), g.Chance(0.8), g.Chance(0.8)
+						// all 16 combinations of the four kinds
+						r.Initial, r.Insert, r.Delete, r.Modify = g.Chance(0.6), g.Chance(0.5), g.Chance(0.6), g.Chance(0.5)
 						if !(r.Initial && r.Insert && r.Delete && r.Modify) {
 							m.allKind = false
 						}
@@ -209,6 +210,22 @@ func driveC07(o opts) error {
 			}
 			mons = append(mons, m)
 		}
+		// a third of the cases: one monitor follows exactly one kind of change on every table, and the history ends with
+		// the life of a parent and its child: inserted, changed, deleted (the child by garbage collection)
+		lifecycle := g.Chance(0.35)
+		if lifecycle {
+			m := mons[0]
+			m.req = map[string]monReq{}
+			kind := g.Intn(3)
+			for _, t := range sc.Tables {
+				m.req[t.Name] = monReq{HasSelect: true, Initial: g.Chance(0.5), Insert: kind == 0, Modify: kind == 1, Delete: kind == 2}
+			}
+			m.allKind = false
+			m.after = g.Intn(2)
+			nt += 3
+			w.Count("lifecycle:" + []string{"insert-only", "modify-only", "delete-only"}[kind])
+		}
+		var lifeP, lifeC, lifeQ string
 		tg := &txnGen{g: g, sc: sc, state: map[string]map[string]map[string]val.Val{}, pool: 3, pSelect: 0.05, pWait: 0.03, pInvalid: 0.15, dangling: 0.05}
 		st, refs, _ := lab.state()
 		tg.state = st
@@ -325,6 +342,32 @@ func driveC07(o opts) error {
 				return err
 			}
 			ops := tg.txn(4)
+			if lifecycle && ti >= nt-3 {
+				switch ti - (nt - 3) {
+				case 0:
+					lifeP, lifeC, lifeQ = tg.fresh(), tg.fresh(), tg.fresh()
+					ops = []TOp{
+						{Kind: "insert", Table: "Q", UUID: lifeQ, Row: map[string]val.Val{"name": val.VA(val.Str("life"))}},
+						{Kind: "insert", Table: "C", UUID: lifeC, Row: map[string]val.Val{"k": val.VA(val.Str("life-child")), "v": val.VA(val.Int(1))}},
+						{Kind: "insert", Table: "P", UUID: lifeP, Row: map[string]val.Val{"name": val.VA(val.Str("life-parent")), "kids": val.VS(val.Uuid(lifeC)), "w1": val.VS(val.Uuid(lifeQ))}},
+					}
+				case 1:
+					ops = []TOp{
+						{Kind: "update", Table: "P", Where: []Cond{{Col: "_uuid", Fn: "==", Arg: val.VA(val.Uuid(lifeP))}}, Row: map[string]val.Val{"n": val.VA(val.Int(5)), "ss": val.VS(val.Str("x"))}},
+						{Kind: "update", Table: "C", Where: []Cond{{Col: "_uuid", Fn: "==", Arg: val.VA(val.Uuid(lifeC))}}, Row: map[string]val.Val{"v": val.VA(val.Int(2))}},
+					}
+				default:
+					ops = []TOp{{Kind: "delete", Table: "P", Where: []Cond{{Col: "_uuid", Fn: "==", Arg: val.VA(val.Uuid(lifeP))}}}}
+				}
+			} else if ti > 0 && g.Chance(0.3) {
+				// a row that goes away: by a delete of a root row, or by garbage collection when its last referrer lets go
+				for _, tn := range []string{"P", "Q"}[g.Intn(2):] {
+					if us := tg.uuidsOf(tn); len(us) > 0 {
+						ops = append(ops, TOp{Kind: "delete", Table: tn, Where: []Cond{{Col: "_uuid", Fn: "==", Arg: val.VA(val.Uuid(us[g.Intn(len(us))]))}}})
+						break
+					}
+				}
+			}
 			ob := lab.runWith(ops, writer.transactor(sc.Name))
 			for i := range ops {
 				if ops[i].Kind == "insert" && ops[i].UUID == "" {
@@ -337,10 +380,12 @@ func driveC07(o opts) error {
 			if ob.CommitErr != "" {
 				fail("transaction %d: %s", ti, ob.CommitErr)
 			}
+			beforeTxn := tg.state
 			tg.state = ob.State
 			var slotTerms []string
 			var slotJ []interface{}
 			for _, m := range mons {
+				kinds := map[string]map[string]string{} // table -> uuid -> kind of the entry this monitor received
 				if m.p == nil {
 					slotTerms = append(slotTerms, "None")
 					slotJ = append(slotJ, nil)
@@ -366,6 +411,21 @@ func driveC07(o opts) error {
 					var tabTerms []string
 					msgJ := map[string]interface{}{}
 					handle := func(t string, u string, kind string, a, b *ovsdb.Row) {
+						if kinds[t] == nil {
+							kinds[t] = map[string]string{}
+						}
+						k := kind
+						if kind == "v1" {
+							switch {
+							case a != nil && b != nil:
+								k = "mod"
+							case b != nil:
+								k = "ins"
+							default:
+								k = "del"
+							}
+						}
+						kinds[t][u] = k
 						rd := func(r *ovsdb.Row) (map[string]val.Val, bool) {
 							if r == nil {
 								return nil, false
@@ -490,6 +550,40 @@ func driveC07(o opts) error {
 					slotJ = append(slotJ, msgJ)
 					if ob.Committed {
 						nontrivial = true
+					}
+				}
+				// direct oracle: exactly the selected kinds of change are notified, for exactly the rows that changed
+				if ob.Committed {
+					for _, t := range sc.Tables {
+						rq, ok := m.reqFor(t.Name)
+						if !ok {
+							continue
+						}
+						got := func(u string) string { return kinds[t.Name][u] }
+						expect := func(u, what, kind string, selected bool) {
+							switch {
+							case selected && got(u) != kind:
+								fail("transaction %d: row %s of %s was %s but monitor %s, which selected that kind of change, received %q for it", ti, u, t.Name, what, m.cookie, got(u))
+							case !selected && got(u) != "":
+								fail("transaction %d: row %s of %s was %s and monitor %s, which did not select that kind of change, received %q for it", ti, u, t.Name, what, m.cookie, got(u))
+							}
+						}
+						for u, br := range beforeTxn[t.Name] {
+							ar, still := ob.State[t.Name][u]
+							switch {
+							case !still:
+								expect(u, "deleted", "del", rq.Delete)
+							case !rowsEqual(project(rq, br), project(rq, ar)):
+								expect(u, "modified", "mod", rq.Modify)
+							case got(u) != "":
+								fail("transaction %d: monitor %s received %q for row %s of %s whose monitored columns did not change", ti, m.cookie, got(u), u, t.Name)
+							}
+						}
+						for u := range ob.State[t.Name] {
+							if _, was := beforeTxn[t.Name][u]; !was {
+								expect(u, "inserted", "ins", rq.Insert)
+							}
+						}
 					}
 				}
 				// direct oracle: the peer's copy equals the monitored part of the database
